@@ -60,8 +60,10 @@ Definition msig17 (m : PS.msig) : DC.msig :=
   else if bytes_eqb name PS.dc_into_name then DC.mk_msig DC.n_into (N.to_nat np) (N.to_nat nr) p0
   else DC.mk_msig ("_"%char :: name) (N.to_nat np) (N.to_nat nr) false.
 
+(* the switch of createFieldSnippet takes the *types.Named case: the field's type is a named type (error included) or an
+   alias of one *)
 Definition is_named_ty (t : PS.ty) : bool :=
-  match t with PS.TNamed _ _ _ _ | PS.TError => true | _ => false end.
+  match PS.unalias t with PS.TNamed _ _ _ _ | PS.TError => true | _ => false end.
 
 Section Adapter.
   Variable L : bytes -> bytes.
@@ -92,6 +94,7 @@ Section Adapter.
     | PS.TSlice e => option_map DC.FSlice (ety17 e)
     | PS.TMap k v => option_map (DC.FMap (text_of k)) (ety17 v)
     | PS.TPtr _ | PS.TArray _ _ => None
+    | PS.TAlias _ _ _ => None      (* C17's model has no alias types *)
     end.
 
   (* C17 resolves a same-package named type through its type graph; C18 carries kind and methods in the field type.
@@ -156,18 +159,26 @@ Definition zero_fields17 (fs : list (bytes * DC.value)) : list (bytes * DC.value
   map (fun fx => (fst fx, DC.zero_like (snd fx))) fs.
 
 (* func (in *X) DeepCopyAs() *Origin { if in == nil { return nil }; out := new(Origin); in.DeepCopyIntoAs(out); return out }
+   (partialstruct.go:110-117, a fixed text): [as_body] is that statement list, executed by C17's [DC.run_ptr_copy] on a
+   receiver that may be nil; [into_as] is in.DeepCopyIntoAs(out), the generated statements executed by C17's exec_body.
    [fin] are the fields of *in (X has exactly the retained fields).  The origin value is represented by its retained
    fields: the body assigns no other field (C18_copy: omitted fields stay zero) and a zero value holds no container.
    [rec c v o h] is (&v).DeepCopyIntoAs(&o) of the target-package type c (hand-written, or the replacement's). *)
+Definition as_body : list DC.cstmt := [DC.CNilGuard; DC.CNew; DC.CCallInto; DC.CReturnOut].
+
+Definition into_as (rec : bytes -> DC.value -> DC.value -> DC.heap -> res (DC.value * DC.heap))
+    (G : DC.pkg) (ms : list DC.method) (g : PS.gtype) (vin vout : DC.value) (h : DC.heap) : res (DC.value * DC.heap) :=
+  match vin, vout with
+  | DC.VStruct fin, DC.VStruct fout =>
+      let! (fout', h') := DC.exec_body rec G ms (PS.g_name g) fin (map stmt17 (PS.g_stmts g)) fout h in
+      Ok (DC.VStruct fout', h')
+  | _, _ => Panic
+  end.
+
 Definition deep_copy_as_heap (rec : bytes -> DC.value -> DC.value -> DC.heap -> res (DC.value * DC.heap))
     (G : DC.pkg) (ms : list DC.method) (g : PS.gtype) (inp : option (list (bytes * DC.value))) (h : DC.heap)
   : res (option DC.value * DC.heap) :=
-  match inp with
-  | None => Ok (None, h)
-  | Some fin =>
-      let! (fout, h') := DC.exec_body rec G ms (PS.g_name g) fin (map stmt17 (PS.g_stmts g)) (zero_fields17 fin) h in
-      Ok (Some (DC.VStruct fout), h')
-  end.
+  DC.run_ptr_copy (into_as rec G ms g) (option_map DC.VStruct inp) as_body DC.OUndeclared h.
 
 (* ---- a type graph that agrees with a list of retained fields (used by the correspondence check of C18 and by the
    witnesses; the theorems quantify over every graph that agrees) ---- *)
